@@ -21,6 +21,46 @@ inline const char* kname(K k) {
 inline bool isInt(K k) { return k >= I8 && k <= U64; }
 inline bool isSigned(K k) { return k == I8 || k == I16 || k == I32 || k == I64; }
 
+struct Node;
+
+// typed object key (MsgPack supports non-string keys)
+struct Key {
+	enum T : uint8_t { S, I, U, F, D, TS } t = S;
+	std::string s; int64_t i = 0; uint64_t u = 0; float f = 0; double d = 0; int64_t ts_sec = 0; int32_t ts_ns = 0;
+	Key() = default;
+	Key(const char* v) : s(v) {}
+	Key(std::string v) : s(std::move(v)) {}
+	static Key ofVal(const ref::Val& v) {
+		Key k;
+		switch (v.k) {
+		case ref::Val::Str: k.t = S; k.s = v.s; break;
+		case ref::Val::Int: if (v.i < 0) { k.t = I; k.i = static_cast<int64_t>(v.i); } else { k.t = U; k.u = static_cast<uint64_t>(v.i); } break;
+		case ref::Val::F32: k.t = F; std::memcpy(&k.f, &v.f32, 4); break;
+		case ref::Val::F64: k.t = D; std::memcpy(&k.d, &v.f64, 8); break;
+		case ref::Val::Ts: k.t = TS; k.ts_sec = v.ts_sec; k.ts_ns = static_cast<int32_t>(v.ts_ns); break;
+		default: k.t = S; k.s = "?" + v.dump();
+		}
+		return k;
+	}
+	ref::Val toVal() const {
+		switch (t) {
+		case S: return ref::Val::str(s); case I: return ref::Val::integer(i); case U: return ref::Val::integer(static_cast<ref::i128>(u));
+		case F: return ref::Val::flt(f); case D: return ref::Val::dbl(d); default: return ref::Val::ts(ts_sec, static_cast<uint32_t>(ts_ns));
+		}
+	}
+	std::string str() const { return t == S ? s : toVal().dump(); }
+};
+
+// one request issued inside Serialize() of a scripted object (property C03)
+struct Req {
+	enum Kind : uint8_t { Get, VisitKeys } kind = Get;
+	Key key;
+	std::vector<Node> target;            // exactly one node for Get: shape + result
+	std::vector<std::string> visited;    // VisitKeys result
+	uint64_t stateAfter = 0;             // canonical scope state after the request (0 if not observable)
+	bool unsupported = false;
+};
+
 struct Node {
 	K k = Nil;
 	bool loaded = false;        // result of the Serialize() call for this node
@@ -31,6 +71,7 @@ struct Node {
 	std::vector<std::pair<std::string, Node>> fields;    // Obj
 	size_t attempted = 0;                                // Arr: items the loader attempted before IsEnd()
 	bool leftover = false;                               // Arr: document array had more elements than the shape
+	bool scripted = false; std::vector<Req> script;      // Obj: run this request script instead of loading `fields`
 
 	static Node mk(K k) { Node n; n.k = k; return n; }
 	static Node integer(K k, ref::i128 v) { Node n; n.k = k; if (isSigned(k)) n.i = static_cast<int64_t>(v); else n.u = static_cast<uint64_t>(v); return n; }
@@ -65,6 +106,14 @@ struct Node {
 		std::string r = loaded ? "+" : "-";
 		if (unsupported) r += "U";
 		if (k == Arr) { r += "["; for (auto& e : items) r += e.dumpLoaded() + ","; r += "]#" + std::to_string(attempted) + (leftover ? "+more" : ""); return r; }
+		if (k == Obj && scripted) {
+			r += "script{";
+			for (auto& q : script) {
+				if (q.kind == Req::VisitKeys) { r += "keys("; for (auto& v : q.visited) r += v + ","; r += ");"; }
+				else r += "get(" + q.key.str() + ")=" + (q.unsupported ? std::string("U") : q.target[0].dumpLoaded()) + ";";
+			}
+			return r + "}";
+		}
 		if (k == Obj) { r += "{"; for (auto& e : fields) r += e.first + ":" + e.second.dumpLoaded() + ","; return r + "}"; }
 		return r + std::string(kname(k)) + "=" + toVal().dump();
 	}
@@ -75,6 +124,7 @@ struct Node {
 		f = -77.5f; d = -77.5; s = "\x7f" "canary"; bin.assign({0x7f, 0x7e}); ts_sec = -77; ts_ns = 77;
 		for (auto& e : items) e.canary();
 		for (auto& e : fields) e.second.canary();
+		for (auto& r : script) { r.visited.clear(); r.stateAfter = 0; r.unsupported = false; for (auto& t : r.target) t.canary(); }
 	}
 };
 
@@ -110,14 +160,25 @@ struct NoKey {
 	template <class T> bool operator()(T& v) { return BS::Serialize(ar, v); }
 	template <class T> bool raw(T& v) { return ar.SerializeValue(v); }
 };
-template <class A>
+template <class A, class TKey = std::string>
 struct WithKey {
-	A& ar; const std::string& key;
-	template <class T> static constexpr bool canValue() { return BS::can_serialize_value_with_key_v<A, T, const std::string&>; }
-	static constexpr bool canObject = BS::can_serialize_object_with_key_v<A, const std::string&>;
-	static constexpr bool canArray = BS::can_serialize_array_with_key_v<A, const std::string&>;
+	A& ar; const TKey& key;
+	template <class T> static constexpr bool canValue() { return BS::can_serialize_value_with_key_v<A, T, const TKey&>; }
+	static constexpr bool canObject = BS::can_serialize_object_with_key_v<A, const TKey&>;
+	static constexpr bool canArray = BS::can_serialize_array_with_key_v<A, const TKey&>;
 	template <class T> bool operator()(T& v) { return BS::Serialize(ar, key, v); }
 	template <class T> bool raw(T& v) { return ar.SerializeValue(key, v); }
+};
+
+// canonical state of an open scope, for model-checking evidence; specialised by harnesses
+// that read private cursor fields (-fno-access-control). 0 = not observable.
+template <class A> struct ScopeProbe { static uint64_t state(A&) { return 0; } };
+
+struct VisitKeysProbeFn { template <class T> void operator()(T&&) const {} };
+template <class T> struct has_visit_keys {
+	template <class U> static auto test(int) -> decltype(std::declval<U&>().VisitKeys(std::declval<VisitKeysProbeFn>()), std::true_type());
+	template <class> static std::false_type test(...);
+	static constexpr bool value = decltype(test<T>(0))::value;
 };
 
 template <class A, class Call>
@@ -146,7 +207,7 @@ void dispatch(Node& n, Call call) {
 	case F32: if constexpr (Call::template canValue<float>()) n.loaded = call(n.f); else n.unsupported = true; break;
 	case F64: if constexpr (Call::template canValue<double>()) n.loaded = call(n.d); else n.unsupported = true; break;
 	case Str: if constexpr (Call::template canValue<typename A::string_view_type>()) n.loaded = call(n.s); else n.unsupported = true; break;
-	case Bin: if constexpr (Call::canArray) n.loaded = call(n.bin); else n.unsupported = true; break;
+	case Bin: if constexpr (Call::canArray && A::archive_type != BS::ArchiveType::Csv) n.loaded = call(n.bin); else n.unsupported = true; break;
 	case Ts:
 		if constexpr (Call::template canValue<CBinTimestamp>()) {
 			CBinTimestamp t(n.ts_sec, n.ts_ns); bool ok = call.raw(t);
@@ -159,11 +220,46 @@ void dispatch(Node& n, Call call) {
 	}
 }
 
+template <class A, class TKey>
+void runGet(A& ar, Req& r, const TKey& key) {
+	if constexpr (BS::is_convertible_to_one_from_tuple_v<TKey, typename A::supported_key_types>) dispatch<A>(r.target[0], WithKey<A, TKey>{ar, key});
+	else r.unsupported = true;
+}
+
 template <class A>
 void ObjRef::Serialize(A& ar) {
 	if constexpr (is_counter<A>::value) {
 		for (auto& f : n.fields) { (void)f; int dummy = 0; ar << dummy; }
 	} else {
+		if (n.scripted) {
+			if constexpr (A::IsLoading()) {
+				for (auto& r : n.script) {
+					if (r.kind == Req::VisitKeys) {
+						if constexpr (has_visit_keys<A>::value) {
+							ar.VisitKeys([&r](auto&& k) {
+								using KT = std::decay_t<decltype(k)>;
+								if constexpr (std::is_same_v<KT, CBinTimestamp>) r.visited.push_back(ref::Val::ts(k.Seconds, static_cast<uint32_t>(k.Nanoseconds)).dump());
+								else if constexpr (std::is_same_v<KT, float>) r.visited.push_back(ref::Val::flt(k).dump());
+								else if constexpr (std::is_same_v<KT, double>) r.visited.push_back(ref::Val::dbl(k).dump());
+								else if constexpr (std::is_integral_v<KT>) r.visited.push_back(ref::Val::integer(static_cast<ref::i128>(k)).dump());
+								else r.visited.push_back(ref::Val::str(std::string(std::string_view(k))).dump());
+							});
+						} else r.unsupported = true;
+					} else {
+						switch (r.key.t) {
+						case Key::S: runGet(ar, r, r.key.s); break;
+						case Key::I: runGet(ar, r, r.key.i); break;
+						case Key::U: runGet(ar, r, r.key.u); break;
+						case Key::F: runGet(ar, r, r.key.f); break;
+						case Key::D: runGet(ar, r, r.key.d); break;
+						case Key::TS: { CBinTimestamp t(r.key.ts_sec, r.key.ts_ns); runGet(ar, r, t); break; }
+						}
+					}
+					r.stateAfter = ScopeProbe<A>::state(ar);
+				}
+			}
+			return;
+		}
 		for (auto& f : n.fields) dispatch<A>(f.second, WithKey<A>{ar, f.first});
 	}
 }
